@@ -13,6 +13,7 @@
 package main
 
 import (
+	"bytes"
 	"crypto"
 	"crypto/x509"
 	"encoding/json"
@@ -31,6 +32,7 @@ import (
 	"github.com/sassoftware/relic/v8/signers"
 	"github.com/spf13/pflag"
 
+	"verif/gen/dngen"
 	"verif/gen/machogen"
 	"verif/gen/shape"
 	"verif/relicx"
@@ -101,6 +103,11 @@ func setupWorker() *worker {
 	cfg := relicx.ServerConfig("file")
 	cfg.Keys["pgpOnly"] = &config.KeyConfig{Token: "tok", KeyFile: filepath.Join(relicx.KeyDir, "rsaB.key"),
 		PgpCertificate: filepath.Join(relicx.KeyDir, "rsaB.pgp"), Roles: []string{"r"}}
+	for _, k := range nameKeys {
+		cfg.Keys[k.Name] = &config.KeyConfig{Token: "tok", KeyFile: filepath.Join(relicx.KeyDir, "rsaA.key"),
+			X509Certificate: filepath.Join(nameKeyDir, strings.TrimPrefix(k.Name, nameKeyPrefix)+".chain.crt"),
+			PgpCertificate:  filepath.Join(relicx.KeyDir, "rsaA.pgp"), Roles: []string{"r"}}
+	}
 	if err := cfg.Normalize(""); err != nil {
 		panic(err)
 	}
@@ -124,6 +131,21 @@ func setupWorker() *worker {
 	}
 	for _, k := range bundleKeys {
 		w.leaf[k.Name] = relicx.LeafOf(k.Name)
+		w.pgpFP[k.Name] = loadPGPFingerprint(filepath.Join(relicx.KeyDir, "rsaA.pgp"))
+	}
+	for i, sh := range dngen.Shapes() {
+		// the fixture must be what the table says: leaf first in the configured file,
+		// its issuer and subject the octets gen/dngen writes for this shape
+		k := nameKeys[i]
+		leaf := loadCerts(filepath.Join(nameKeyDir, sh.Name+".leaf.crt"))
+		chain := loadCerts(filepath.Join(nameKeyDir, sh.Name+".chain.crt"))
+		if len(leaf) != 1 || len(chain) != 3 || !bytes.Equal(chain[0].Raw, leaf[0].Raw) ||
+			!bytes.Equal(leaf[0].RawIssuer, dngen.Encode(sh.Issuer)) || !bytes.Equal(leaf[0].RawSubject, dngen.Encode(sh.Subject)) ||
+			!bytes.Equal(chain[1].RawSubject, leaf[0].RawIssuer) {
+			fmt.Println("HARNESS-ERROR: fixtures/keys/names/" + sh.Name + ".* are not what gen/dngen describes (run: go run ./cmd/certgen/names)")
+			os.Exit(2)
+		}
+		w.leaf[k.Name] = leaf[0]
 		w.pgpFP[k.Name] = loadPGPFingerprint(filepath.Join(relicx.KeyDir, "rsaA.pgp"))
 	}
 	w.pgpFP["rsaA"] = loadPGPFingerprint(filepath.Join(relicx.KeyDir, "rsaA.pgp"))
@@ -153,6 +175,27 @@ func setupWorker() *worker {
 	// an empty binary requirements set: magic 0xfade0c01, length 12, count 0 (cs_blobs.h)
 	write("requirements", "requirements.bin", []byte{0xfa, 0xde, 0x0c, 0x01, 0, 0, 0, 12, 0, 0, 0, 0})
 	return w
+}
+
+func loadCerts(path string) (out []*x509.Certificate) {
+	blob, err := os.ReadFile(path)
+	if err != nil {
+		fmt.Println("HARNESS-ERROR:", err)
+		os.Exit(2)
+	}
+	for {
+		var b *pem.Block
+		b, blob = pem.Decode(blob)
+		if b == nil {
+			return
+		}
+		c, err := x509.ParseCertificate(b.Bytes)
+		if err != nil {
+			fmt.Println("HARNESS-ERROR:", path, err)
+			os.Exit(2)
+		}
+		out = append(out, c)
+	}
 }
 
 type stats struct {
@@ -282,7 +325,9 @@ func main() {
 		}
 	}
 	if run.Fork(16) {
-		cliPhase()
+		if os.Getenv("C01_NAMES_ONLY") == "" {
+			cliPhase()
+		}
 		finish()
 	}
 	si, sn := vlib.ShardIndex()
@@ -297,7 +342,8 @@ func main() {
 	start := time.Now()
 	capped := false
 
-	only := os.Getenv("C01_ONLY") // development: restrict to one type
+	only := os.Getenv("C01_ONLY")                  // development: restrict to one type
+	namesOnly := os.Getenv("C01_NAMES_ONLY") != "" // development: only the certificate-name sweep (E), no CLI phase
 	idx := 0
 	unenumerated := map[string]bool{}
 	flagNames := map[string][]string{}
@@ -460,7 +506,9 @@ func main() {
 			presignModes = []bool{false, true}
 		}
 		modes := []string{"inplace", "separate", "preexisting"}
-		if !thorough {
+		if namesOnly {
+			// development: sweep (E) only
+		} else if !thorough {
 			// (A) every shape (and its relic-signed twin) x {rsaA, SHA-256, default flags}, in place
 			for i, sh := range shapes {
 				for _, ps := range presignModes {
@@ -538,8 +586,24 @@ func main() {
 			}
 		}
 		for _, r := range reps {
+			if namesOnly {
+				break
+			}
 			for _, om := range modes {
 				runCase(t, canon, mk(canon, 0, false, r.k, r.h, url.Values{}, om))
+			}
+		}
+		// (E) the same key behind certificates whose subject and issuer names are written in
+		// each of the distinguished-name shapes of gen/dngen (X.509 signature types only)
+		if !t.PGP {
+			em := []string{"inplace"}
+			if thorough {
+				em = modes
+			}
+			for _, k := range nameKeys {
+				for _, om := range em {
+					runCase(t, canon, mk(canon, 0, false, k, crypto.SHA256, url.Values{}, om))
+				}
 			}
 		}
 	}
@@ -559,6 +623,11 @@ func main() {
 		sort.Strings(hid)
 		run.Set("hidden_flags_not_enumerated", hid)
 		run.Set("cases_planned_pairs", idx)
+		var dn []string
+		for _, k := range nameKeys {
+			dn = append(dn, k.Name+" = "+k.Alg)
+		}
+		run.Set("certificate_name_shapes", dn)
 	}
 	os.RemoveAll(w.dir) // finish exits the process: deferred calls do not run
 	finish()
@@ -656,12 +725,13 @@ func cliPhase() {
 }
 
 func finish() {
-	tier := "quick: per type (A) every generated/fixture shape of the full shape families and its relic-signed twin x {rsaA, SHA-256, default flags} in place, (D) every shape x every single non-default flag value x {rsaA, SHA-256} in place, (B) canonical shape x keys x all six digests x the full product of every registered signer flag's alphabet with a separate output file, (C) canonical shape x {accepted, refused-by-key, refused-by-digest} x {in place, separate output, pre-existing output}"
+	tier := "quick: per type (A) every generated/fixture shape of the full shape families and its relic-signed twin x {rsaA, SHA-256, default flags} in place, (D) every shape x every single non-default flag value x {rsaA, SHA-256} in place, (B) canonical shape x keys x all six digests x the full product of every registered signer flag's alphabet with a separate output file, (C) canonical shape x {accepted, refused-by-key, refused-by-digest} x {in place, separate output, pre-existing output}, (E) every X.509 signature type: canonical shape x every certificate-name shape (below) x {SHA-256, default flags} in place"
 	if run.Thorough() {
-		tier = "thorough: cheap types (pe-coff, cab, cat, ps, appmanifest, jar, xap, deb, pgp): every shape x keys x all six digests x full flag product (output mode cycling through in place / separate / pre-existing) plus the relic-signed twin of every shape x keys x digests; other types: same with digests {SHA-256, SHA-384} on non-canonical shapes and all six on the canonical shape; plus (C) as in quick"
+		tier = "thorough: cheap types (pe-coff, cab, cat, ps, appmanifest, jar, xap, deb, pgp): every shape x keys x all six digests x full flag product (output mode cycling through in place / separate / pre-existing) plus the relic-signed twin of every shape x keys x digests; other types: same with digests {SHA-256, SHA-384} on non-canonical shapes and all six on the canonical shape; plus (C) as in quick; plus (E) as in quick x {in place, separate output, pre-existing output}"
 	}
-	run.Rule("every case = one (type, shape, presigned?, key, digest, flag assignment, output mode) executed through BOTH the standalone pipeline and the server handler; " + tier + ". distinct_nontrivial = distinct (type, shape, presigned, key, digest, flags, output mode, path) tuples that reached the oracle (all of them: each one signs or refuses on the real pipeline). Keys: X.509 types {rsaA RSA-2048, p256A, p384, p521, pgpOnly (no X.509 certificate)}; PGP types {rsaA, p256A (no PGP certificate), pgpOnly}. The pgp shape family includes documents sized so that the BODY of the literal data packet of an inline signed message (6 + file name + document octets, file name data.bin) is L-1, L, L+1, L+2 for every L where RFC 4880 4.2 changes the form of a packet length: 191, 255, 8383, 65535 and 2^k-1 for k=9..16 (44 body lengths; quick: x every single signer flag incl. --inline; thorough: x the full flag product incl. --inline --armor). states = distinct tuples, transitions = evaluations")
+	run.Rule("every case = one (type, shape, presigned?, key, digest, flag assignment, output mode) executed through BOTH the standalone pipeline and the server handler; " + tier + ". distinct_nontrivial = distinct (type, shape, presigned, key, digest, flags, output mode, path) tuples that reached the oracle (all of them: each one signs or refuses on the real pipeline). Keys: X.509 types {rsaA RSA-2048, p256A, p384, p521, pgpOnly (no X.509 certificate)}; PGP types {rsaA, p256A (no PGP certificate), pgpOnly}. Certificate shapes of key rsaA (X.509 types; oracle unchanged: signs, verifies, chains to the fixture root, the verifier names the configured leaf byte for byte): in (C) three shapes of certificate FILE (foreign PEM blocks between the certificates, a private-key block first, a superseded intermediate listed first); in (E) " + fmt.Sprint(len(nameKeys)) + " shapes of distinguished NAME (gen/dngen: leaf subject, leaf issuer = subject of an issuing authority under the fixture root, both written in the shape; certificates assembled octet by octet with gen/dergen by cmd/certgen/names, not by Go's x509.CreateCertificate, whose names are all in one canonical form): one representative per value of each axis a Name may differ on under RFC 5280 4.1.2.4 - string type {PrintableString, UTF8String for all but country as openssl writes, UTF8String throughout, TeletexString, BMPString, IA5String for DC / emailAddress}, RDN order {C-O-CN, CN-O-C, O-C-CN}, multiplicity {single-valued, a multi-valued RDN, an attribute type repeated in several RDNs}, attribute set {X.520 naming attributes, DC, UID + emailAddress, EV jurisdiction / businessCategory / serialNumber / street / postalCode, a private-enterprise OID}, value {ordinary, empty, non-ASCII, 64 octets = ub-organizational-unit-name}, encoded length {< 128, 128..255, > 255 octets}. The pgp shape family includes documents sized so that the BODY of the literal data packet of an inline signed message (6 + file name + document octets, file name data.bin) is L-1, L, L+1, L+2 for every L where RFC 4880 4.2 changes the form of a packet length: 191, 255, 8383, 65535 and 2^k-1 for k=9..16 (44 body lengths; quick: x every single signer flag incl. --inline; thorough: x the full flag product incl. --inline --armor). states = distinct tuples, transitions = evaluations")
 	run.Assume("a new signature is identified by the configured leaf certificate (byte-equal) or PGP primary-key fingerprint; earlier signatures in already-signed inputs are by other keys (rsaB, third parties)")
+	run.Assume("the certificate-name shapes are carried by key rsaA and an RSA issuing authority under the fixture root (trust unchanged: root.crt); names that Go's x509 parser itself rejects (UniversalString, a PrintableString with characters outside its alphabet) cannot be configured at all and are not part of the family")
 	run.Assume("must-support / must-refuse tables are listed in cmd/c01/types.go with their sources; combinations in neither table and all lenient (legal but unusual) shapes only need 'explicit error XOR verifiable output'")
 	run.Assume("relic has no verifier for cosign artifacts: they are checked by an independent verifier written from the cosign / OCI specifications (cmd/c01/cosign.go)")
 	run.Assume("PE images additionally must carry a correct CheckSum after signing (spec-derived recomputation), which is what the Fixup step of both pipelines is for")
@@ -707,7 +777,7 @@ func replayMain(path string) {
 				continue
 			}
 			c := caseDef{T: t, Shape: sh, ShapeIdx: i, Presign: r.Presign, Hash: relicx.HashByName(r.Digest), Flags: url.Values{}, OutMode: r.OutMode}
-			for _, k := range append(append([]keyDef{}, x509Keys...), pgpKeys...) {
+			for _, k := range append(append(append(append([]keyDef{}, x509Keys...), pgpKeys...), bundleKeys...), nameKeys...) {
 				if k.Name == r.Key {
 					c.Key = k
 				}
